@@ -240,17 +240,59 @@ func (ex *Exec) callFn(st *State, fn *ssa.Function, args []Val, free []Val, pos 
 	return ex.applyContract(st, fn, fc, args, pos)
 }
 
-func (ex *Exec) autoInline(fn *ssa.Function) bool {
-	if len(fn.Blocks) != 1 {
-		return false
-	}
-	for _, in := range fn.Blocks[0].Instrs {
-		switch in.(type) {
-		case *ssa.Call, *ssa.Store, *ssa.MapUpdate:
-			return false
+// counterPhi: the loop counter of a canonical counting loop (for i := 0; ...; i++) whose
+// header has no hidden range index: the only phi that starts at the constant 0 and whose
+// every other incoming value is itself plus 1. Its value is the number of completed
+// iterations, like the hidden index of a range loop.
+func counterPhi(h *ssa.BasicBlock) *ssa.Phi {
+	var found *ssa.Phi
+	for _, in := range h.Instrs {
+		phi, ok := in.(*ssa.Phi)
+		if !ok {
+			break
+		}
+		if phi.Comment == "rangeindex" {
+			return nil
+		}
+		zero, step := 0, 0
+		for _, e := range phi.Edges {
+			if c, ok := e.(*ssa.Const); ok && c.Value != nil && c.Value.ExactString() == "0" {
+				zero++
+				continue
+			}
+			if bo, ok := e.(*ssa.BinOp); ok && bo.Op == token.ADD && bo.X == ssa.Value(phi) {
+				if c, ok := bo.Y.(*ssa.Const); ok && c.Value != nil && c.Value.ExactString() == "1" {
+					step++
+					continue
+				}
+			}
+			zero = -100
+		}
+		if zero == 1 && step >= 1 {
+			if found != nil {
+				return nil
+			}
+			found = phi
 		}
 	}
-	return true
+	return found
+}
+
+func (ex *Exec) autoInline(fn *ssa.Function) bool {
+	// a contract-less function of /repo is inlined (its body is its own strongest
+	// post-condition) when it is small and loop-free: extracted helpers such as
+	// hasArg(opt, a) = slices.Contains(opt.ArgList, a) need no contract of their own. Its
+	// callees are handled by the same rules; recursion is excluded by the depth limit.
+	n := 0
+	for _, b := range fn.Blocks {
+		for _, p := range b.Preds {
+			if b.Dominates(p) {
+				return false // a loop needs an invariant
+			}
+		}
+		n += len(b.Instrs)
+	}
+	return n <= 60
 }
 
 // caseOf picks the contract case for the dynamic type of the first `any` argument.
@@ -802,6 +844,17 @@ func (ex *Exec) loopScope(st *State, b *ssa.BasicBlock, ord int) *Scope {
 				if v, ok := fr.Env[phi]; ok {
 					sc.Iter[o] = smt.Add(v.(Int).T, "1")
 				}
+			} else if phi == counterPhi(h) {
+				// for i := 0; ...; i++ : the number of completed iterations is i
+				if v, ok := fr.Env[phi]; ok {
+					sc.Iter[o] = v.(Int).T
+					if phi.Comment != "" {
+						if sc.At[o] == nil {
+							sc.At[o] = map[string]Val{}
+						}
+						sc.At[o][phi.Comment] = v
+					}
+				}
 			} else if phi.Comment != "" {
 				if v, ok := fr.Env[phi]; ok {
 					if sc.At[o] == nil {
@@ -997,6 +1050,8 @@ func (ex *Exec) havocLoop(st *State, b *ssa.BasicBlock, wObjs map[*Obj]bool, wKe
 		}
 		if phi.Comment == "rangeindex" {
 			st.Assume(smt.Ge(v.(Int).T, "(- 1)"))
+		} else if phi == counterPhi(b) {
+			st.Assume(smt.Ge(v.(Int).T, "0")) // starts at 0 and is only ever incremented by 1
 		}
 		st.Fr.Env[phi] = v
 		if phi.Comment != "" {
